@@ -689,4 +689,238 @@ Section LookupProofs.
       + right; right. exact H.
   Qed.
 
+  (* ---------- provenance: everything queued or queried lies in a reply-closed set ---------- *)
+  Section Closed.
+    Variable P : pid -> Prop.
+    Hypothesis Pclosed : forall q l x, P q -> reply q = Some l -> In x l -> ~ In x selfs_all -> P x.
+
+    Definition PInv (s : st) : Prop :=
+      (forall p, In p (cand s) -> P p) /\ (forall p, In p (sent s) -> P p).
+
+    Lemma consider_pinv s n : (~ In n selfs_all -> P n) -> PInv s -> PInv (consider s n).
+    Proof.
+      intros Hn [H1 H2]. destruct (consider_fixed s n) as [_ [_ G3]]. split; [|rewrite G3; exact H2].
+      unfold Model.Lookup.consider.
+      destruct (mem n (queried s) || mem n (queued s) || mem n selfs_all) eqn:E; [exact H1|].
+      destruct (dominated (best s) n); [exact H1|].
+      destruct (N.to_nat LK_MAX_CANDIDATE_NODES <=? length (cand s))%nat; cbn [cand]; [exact H1|].
+      apply orb_false_iff in E. destruct E as [_ E]. apply mem_false in E.
+      intros p Hp. apply in_app_or in Hp. destruct Hp as [Hp|[<-|[]]]; [apply H1, Hp|apply Hn, E].
+    Qed.
+
+    Lemma fold_consider_pinv nodes : forall s,
+      (forall n, In n nodes -> ~ In n selfs_all -> P n) -> PInv s -> PInv (fold_left consider nodes s).
+    Proof.
+      induction nodes as [|n nodes IH]; intros s Hn H; cbn [fold_left]; [exact H|].
+      apply IH; [intros m Hm; apply Hn; right; exact Hm|].
+      apply consider_pinv; [apply Hn; left; reflexivity|exact H].
+    Qed.
+
+    Lemma process_one_pinv s p : P p -> PInv s -> PInv (process_one s p).
+    Proof.
+      intros Hp [H1 H2].
+      assert (H2' : forall y, In y (p :: sent s) -> P y) by (intros y [<-|Hy]; auto).
+      destruct (reply p) as [nodes|] eqn:E.
+      - rewrite (process_one_some s p nodes E). apply fold_consider_pinv.
+        + intros n Hn Hs. exact (Pclosed p nodes n Hp E Hn Hs).
+        + split; cbn [cand sent]; assumption.
+      - rewrite (process_one_none s p E). split; cbn [cand sent]; assumption.
+    Qed.
+
+    Lemma fold_process_pinv batch : forall s,
+      (forall p, In p batch -> P p) -> PInv s -> PInv (fold_left process_one batch s).
+    Proof.
+      induction batch as [|p batch IH]; intros s Hb H; cbn [fold_left]; [exact H|].
+      apply IH; [intros m Hm; apply Hb; right; exact Hm|].
+      apply process_one_pinv; [apply Hb; left; reflexivity|exact H].
+    Qed.
+
+    Lemma loop_pinv fuel : forall s, PInv s -> PInv (loop fuel s).
+    Proof.
+      induction fuel as [|f IH]; intros s H; cbn [Model.Lookup.loop]; [exact H|].
+      destruct (cand s) as [|c0 cl] eqn:Ec; [exact H|]. rewrite <- Ec.
+      destruct (pop_batch (best s) (queried s) (cand s) (queued s) []) as [[c' q'] batch] eqn:Ep.
+      apply pop_batch_spec in Ep. destruct Ep as [pre [E1 [_ E3]]]. cbn [app] in E3.
+      destruct H as [H1 H2].
+      assert (H0 : PInv (mkSt (best s) c' (queried s) q' (sent s) (budget_hit s))).
+      { split; cbn [cand sent]; [|exact H2]. intros y Hy. apply H1. rewrite E1. apply in_or_app. right; exact Hy. }
+      destruct batch as [|p batch]; [exact H0|].
+      apply IH, fold_process_pinv; [|exact H0].
+      intros y Hy. rewrite E3 in Hy. apply filter_In in Hy. destruct Hy as [Hy _].
+      apply H1. rewrite E1. apply in_or_app. left; exact Hy.
+    Qed.
+  End Closed.
+
+  (* ---------- full mesh (theorem 6) ---------- *)
+  Lemma all_or_exists {A} (Q R : A -> Prop) l :
+    (forall m, In m l -> Q m \/ R m) -> (forall m, In m l -> Q m) \/ exists m, In m l /\ R m.
+  Proof.
+    induction l as [|a l IH]; intro H; [left; intros m []|].
+    destruct (H a (or_introl eq_refl)) as [Ha|Ha]; [|right; exists a; split; [left; reflexivity|exact Ha]].
+    destruct IH as [IH|[m [Hm HR]]].
+    - intros m Hm. apply H. right; exact Hm.
+    - left. intros m [<-|Hm]; [exact Ha|apply IH, Hm].
+    - right. exists m. split; [right; exact Hm|exact HR].
+  Qed.
+
+  Lemma lookup_full_mesh init U :
+    NoDup init ->
+    incl selfs_marked selfs_all -> In self selfs_marked ->
+    (forall u, In u U -> ~ In u selfs_all) ->
+    incl init U ->
+    (forall u m, In u U -> ~ In u init -> In m init -> dist m <= dist u) ->
+    length init = Nat.min count (length U) ->
+    (forall u, In u U -> exists l, reply u = Some l /\ forall x, In x l -> In x U \/ In x selfs_all) ->
+    let s := lookup init in
+    budget_hit s = false ->
+    (forall w, In w (best s) -> In w (self :: U)) /\
+    (forall x, In x (self :: U) ->
+       In x (best s) \/
+       (length (best s) = count /\ forall w, In w (best s) -> dist w <= dist x)).
+  Proof.
+    intros Hnd Hm Hs HU Hincl Hfar Hlen Hans. cbv zeta. intro Hbud.
+    assert (Hi : forall p, In p init -> ~ In p selfs_all) by (intros p Hp; apply HU, Hincl, Hp).
+    pose proof (lookup_result_wf init Hnd Hi Hm Hs) as Hwf. cbv zeta in Hwf.
+    destruct Hwf as [Hbl [Hbnd [_ Hsrc]]].
+    pose proof (lookup_best_is_closest init Hnd Hi Hm Hs) as Hclo. cbv zeta in Hclo.
+    pose proof (lookup_complete init Hnd Hi Hm Hs Hbud) as Hcomp.
+    set (s := lookup init) in *.
+    assert (Hanswer : forall u, In u U -> reply u <> None).
+    { intros u Hu. destruct (Hans u Hu) as [l [E _]]. congruence. }
+    split.
+    - (* members *)
+      assert (HP : PInv (fun p => In p U) s).
+      { unfold s, Model.Lookup.lookup. apply loop_pinv.
+        - intros q l x Hq E Hx Hns. destruct (Hans q Hq) as [l' [E' Hl']].
+          rewrite E in E'. inv E'. destruct (Hl' x Hx); [assumption|contradiction].
+        - split; cbn [Model.Lookup.init_state cand sent]; [exact Hincl|intros p []]. }
+      intros w Hw. destruct (Hsrc w Hw) as [->|[Hin _]]; [left; reflexivity|].
+      right. apply (proj2 HP), Hin.
+    - (* closest *)
+      assert (Hinit_cov : forall m, In m init -> In m (best s) \/ dom (best s) m).
+      { intros m Hmi. destruct (Hcomp m (or_introl Hmi)) as [H|[H|H]].
+        - apply Hclo. right. split; [exact H|apply Hanswer, Hincl, Hmi].
+        - exfalso. exact (Hi m Hmi H).
+        - right. exact H. }
+      intros x [<-|Hx].
+      + destruct count as [|k] eqn:Ek.
+        * right. split; [lia|]. destruct (best s); [intros w []|cbn [length] in Hbl; lia].
+        * apply Hclo. left. split; [reflexivity|lia].
+      + destruct (in_dec N.eq_dec x init) as [Hxi|Hxi]; [apply Hinit_cov, Hxi|].
+        right.
+        assert (Hlc : length init = count).
+        { assert (Hl : (length (x :: init) <= length U)%nat).
+          { apply NoDup_incl_length; [constructor; assumption|].
+            intros y [<-|Hy]; [exact Hx|apply Hincl, Hy]. }
+          cbn [length] in Hl. lia. }
+        destruct (all_or_exists _ _ init Hinit_cov) as [Hall|[m [Hmi [Hdl Hdw]]]].
+        * assert (Hbi : incl (best s) init) by (apply NoDup_length_incl; [exact Hnd|lia|exact Hall]).
+          split.
+          -- pose proof (NoDup_incl_length Hnd Hall). lia.
+          -- intros w Hw. apply Hfar; [exact Hx|exact Hxi|apply Hbi, Hw].
+        * split; [exact Hdl|]. intros w Hw.
+          pose proof (Hdw w Hw). pose proof (Hfar x m Hx Hxi Hmi). lia.
+  Qed.
+
+  (* ---------- the executable specification holds of the model's own run ---------- *)
+  Lemma nodupb_NoDup l : NoDup l -> nodupb l = true.
+  Proof.
+    induction 1 as [|x l Hx Hl IH]; cbn [nodupb]; [reflexivity|].
+    apply andb_true_iff; split; [|exact IH]. apply negb_true_iff, mem_false. exact Hx.
+  Qed.
+
+  Lemma sorted_by_dist_true l : SortedD l -> sorted_by_dist keyof target l = true.
+  Proof.
+    induction l as [|x l IH]; intro H; [reflexivity|].
+    apply StronglySorted_inv in H. destruct H as [Hs Hf].
+    destruct l as [|y l']; [reflexivity|].
+    change (sorted_by_dist keyof target (x :: y :: l'))
+      with ((dist x <=? dist y) && sorted_by_dist keyof target (y :: l')).
+    apply andb_true_iff; split; [|apply IH, Hs].
+    rewrite Forall_forall in Hf. specialize (Hf y (or_introl eq_refl)). unfold le_d in Hf. lia.
+  Qed.
+
+  Lemma last_some (b : list pid) : b <> [] -> exists w, last (map Some b) None = Some w /\ In w b.
+  Proof.
+    induction b as [|a b IH]; [congruence|]. intros _. destruct b as [|c b].
+    - exists a. split; [reflexivity|left; reflexivity].
+    - destruct IH as [w [H1 H2]]; [discriminate|]. exists w. split; [|right; exact H2].
+      change (last (map Some (c :: b)) None = Some w). exact H1.
+  Qed.
+
+  Lemma dom_bool b x : (0 < count)%nat -> dom b x ->
+    ((count <=? length b)%nat &&
+     match last (map Some b) None with Some w => dist w <=? dist x | None => false end) = true.
+  Proof.
+    intros Hc [Hl Hw]. apply andb_true_iff; split; [apply Nat.leb_le; lia|].
+    destruct (last_some b) as [w [E Hin]].
+    - destruct b; [cbn [length] in Hl; lia|discriminate].
+    - rewrite E. apply N.leb_le, Hw, Hin.
+  Qed.
+
+  Lemma lookup_spec_ok init : (0 < count)%nat ->
+    NoDup init -> (forall p, In p init -> ~ In p selfs_all) ->
+    incl selfs_marked selfs_all -> In self selfs_marked ->
+    let s := lookup init in
+    spec_ok keyof reply self selfs_all target count init (sent s) (best s) (budget_hit s) = true.
+  Proof.
+    intros Hc Hnd Hi Hm Hs. cbv zeta.
+    pose proof (lookup_request_bound init) as T1.
+    pose proof (lookup_no_self_no_dup init Hnd Hi Hm Hs) as [T2a T2b].
+    pose proof (lookup_result_wf init Hnd Hi Hm Hs) as T3. cbv zeta in T3.
+    destruct T3 as [T3a [T3b [T3c T3d]]].
+    pose proof (lookup_best_is_closest init Hnd Hi Hm Hs) as T4. cbv zeta in T4.
+    pose proof (lookup_complete init Hnd Hi Hm Hs) as T5. cbv zeta in T5.
+    set (s := lookup init) in *. unfold Model.Lookup.spec_ok.
+    repeat match goal with |- (_ && _) = true => apply andb_true_iff; split end.
+    - apply Nat.leb_le. rewrite N2Nat.inj_mul. exact T1.
+    - apply nodupb_NoDup, T2a.
+    - apply forallb_forall. intros p Hp. apply negb_true_iff, mem_false, T2b, Hp.
+    - apply Nat.leb_le, T3a.
+    - apply nodupb_NoDup, T3b.
+    - apply sorted_by_dist_true, T3c.
+    - apply forallb_forall. intros p Hp. apply orb_true_iff.
+      destruct (T3d p Hp) as [->|[H1 H2]]; [left; apply N.eqb_refl|right].
+      apply andb_true_iff; split; [apply mem_In, H1|].
+      unfold Model.Lookup.answered. destruct (reply p); [reflexivity|congruence].
+    - apply forallb_forall. intros p Hp. unfold Model.Lookup.answered.
+      destruct (reply p) eqn:E; [|reflexivity]. cbn [negb orb].
+      destruct (T4 p) as [H|H]; [right; split; [exact Hp|congruence]| |].
+      + apply mem_In in H. rewrite H. reflexivity.
+      + rewrite (dom_bool _ _ Hc H). apply orb_true_r.
+    - destruct (T4 self) as [H|H]; [left; split; [reflexivity|exact Hc]| |].
+      + apply mem_In in H. rewrite H. apply orb_true_iff. left. apply orb_true_r.
+      + rewrite (dom_bool _ _ Hc H). apply orb_true_r.
+    - destruct (budget_hit s) eqn:Eb; [reflexivity|]. cbn [orb].
+      apply forallb_forall. intros p Hp.
+      assert (Hp' : In p init \/ exists q l, In q (sent s) /\ reply q = Some l /\ In p l).
+      { unfold Model.Lookup.learned in Hp. apply in_app_or in Hp. destruct Hp as [Hp|Hp]; [left; exact Hp|].
+        right. apply in_flat_map in Hp. destruct Hp as [q [Hq Hp]].
+        destruct (reply q) as [l|] eqn:E; [|destruct Hp]. exists q, l. auto. }
+      destruct (T5 eq_refl p Hp') as [H|[H|H]].
+      + apply mem_In in H. rewrite H. reflexivity.
+      + apply mem_In in H. rewrite H. apply orb_true_iff. left. apply orb_true_r.
+      + rewrite (dom_bool _ _ Hc H). apply orb_true_r.
+  Qed.
+
 End LookupProofs.
+
+(* [spec_ok] has no count = 0 escape in its "closest among the answering peers" clause *)
+Lemma spec_ok_count0_refuted : exists keyof reply self selfs_marked selfs_all target init,
+  NoDup init /\ (forall p, In p init -> ~ In p selfs_all) /\
+  incl selfs_marked selfs_all /\ In self selfs_marked /\
+  let s := lookup keyof reply self selfs_marked selfs_all target 0%nat init in
+  spec_ok keyof reply self selfs_all target 0%nat init (sent s) (best s) (budget_hit s) = false.
+Proof.
+  exists (fun p => p), (fun _ => Some []), 0, [0], [0], 0, [1].
+  split; [repeat constructor; intros []|].
+  split; [intros p [<-|[]] [H|[]]; discriminate|].
+  split; [apply incl_refl|]. split; [left; reflexivity|]. vm_compute. reflexivity.
+Qed.
+
+Lemma example_hyps :
+  NoDup [3;4] /\ (forall p, In p [3;4] -> ~ In p [0;100]) /\ incl [0;100] [0;100] /\ In 0 [0;100].
+Proof.
+  split; [repeat constructor; cbn; intuition discriminate|].
+  split; [cbn; intuition (subst; discriminate)|]. split; [apply incl_refl|left; reflexivity].
+Qed.
